@@ -7,6 +7,7 @@
   overwritten and freed - that is memory behaviour of `Cow::Owned`.
 -/
 import ImapVerif.Owned
+import ImapVerif.OwnedParts
 
 namespace C15
 
@@ -123,5 +124,15 @@ theorem intoOwned_id (v : Response) : response v = v := by
   cases v <;> simp [response, cow_id, map_id' capability capability_id, omap_id' responseCode responseCode_id,
     map_id' attributeValue attributeValue_id, mailboxDatum_id, quota_id, quotaRoot_id, acl_id,
     listRights_id, myRights_id]
+
+/-- the three public building blocks of a body structure that `Response::into_owned` does not reach -/
+theorem bodyFields_id (f : Grammar.BodyFields) : bodyFields f = f := by
+  cases f; simp [bodyFields, bodyParams_id, contentEncoding_id]
+
+theorem bodyExt1Part_id (x : Grammar.BodyExt1Part) : bodyExt1Part x = x := by
+  cases x; simp [bodyExt1Part, omap_id' contentDisposition contentDisposition_id, optExt_id]
+
+theorem bodyExtMPart_id (x : Grammar.BodyExtMPart) : bodyExtMPart x = x := by
+  cases x; simp [bodyExtMPart, bodyParams_id, omap_id' contentDisposition contentDisposition_id, optExt_id]
 
 end C15
